@@ -98,6 +98,65 @@ def spec_races(ctx):
     return items
 
 
+def paged(ctx):
+    """paged results: first page answered with a paging state, then one or two further page fetches (each with its own plan
+    from the load balancer, or the explicit target again) x pool states x what the hosts answer on the later page"""
+    items = []
+    for n in (1, 2, 3):
+        for target in [None] + list(range(n)):
+            for st in (6, 0, 2, 3):
+                for later in ([0], [3, 3, 0], [8]):
+                    pools = [6] * n
+                    sc = base(n, list(range(n)), pools, target=target, script=[[3, None]] * 8)
+                    run = H.Run(sc)
+                    orc = K.Oracle(sc, run, PID)
+                    obs = []
+                    plan2 = list(reversed(range(n)))
+                    first2 = target if target is not None else plan2[0]
+                    ops = [['start'], ['resp', 0, [8]], ['pool', first2, st], ['page', plan2]]
+                    for op in ops:
+                        sc['ops'].append(op)
+                        obs.append(orc.step(len(sc['ops']) - 1, op))
+                    tag = 30
+                    for k in range(10):
+                        if run.env.queue:
+                            op = ['run', 0]
+                        elif run.open_attempts():
+                            r = list(later)
+                            if r[0] == 3:
+                                tag += 1
+                                r[2] = tag
+                            op = ['resp', run.open_attempts()[0], r]
+                        elif run.future._paging_state and run.completed() and k < 6 and later == [8]:
+                            op = ['page', list(range(n))]
+                            later = [0]
+                        else:
+                            break
+                        sc['ops'].append(op)
+                        obs.append(orc.step(len(sc['ops']) - 1, op))
+                    items.append((sc, obs, orc.bad, {'nontrivial': True, 'sample': len(items) == 17}))
+    return items
+
+
+def analytics(ctx):
+    """DSE graph analytics requests: plan re-made by Session._on_analytics_master_result (master first), every master / failed
+    lookup x plan x pool state of the master, driven to exhaustion with RETRY_NEXT_HOST"""
+    items = []
+    for n in (2, 3):
+        for plan in itertools.permutations(range(n)):
+            for master in [None] + list(range(n)):
+                for mst in (6, 0, 3):
+                    pools = [6] * n
+                    if master is not None:
+                        pools[master] = mst
+                    elif mst != 6:
+                        continue
+                    sc = base(n, plan, pools, analytics={'master': master}, script=[[3, None]] * 8)
+                    obs, bad, run = K.drive_sequential(sc, PID, lambda i, prep, tag: [3, 3, tag])
+                    items.append((sc, obs, bad, {'nontrivial': True, 'sample': len(items) == 11}))
+    return items
+
+
 def reprepares(ctx):
     """UNPREPARED on the first host, for every size of the stream-id deque (with 1 the PREPARE goes out on stream id 0)"""
     items = []
@@ -138,6 +197,12 @@ def run(ctx):
     tg = targeted(ctx)
     items += tg
     ctx.count('source', 'explicit_target', len(tg))
+    pg = paged(ctx)
+    items += pg
+    ctx.count('source', 'paged_results', len(pg))
+    an = analytics(ctx)
+    items += an
+    ctx.count('source', 'graph_analytics_master_plan', len(an))
     rp = reprepares(ctx)
     items += rp
     ctx.count('source', 'reprepare_stream_ids', len(rp))
